@@ -229,6 +229,23 @@ func init() {
 			for try := 0; ; try++ {
 				if r.coin(12) {
 					x, y = r.genDec(&ctx, 40), r.genDec(&ctx, 40)
+				} else if r.coin(8) {
+					// the cells decided before any arithmetic: a base numerically equal to one, zero or minus one in
+					// several spellings against infinite, zero, unit and half exponents
+					k := r.rangeI(0, 4)
+					x = mkDec(apd.Finite, r.coin(25), new(big.Int).Mul(big.NewInt(int64(r.pick([]int{1, 1, 1, 0, 2}))), pow10(k)), -k)
+					switch r.intn(6) {
+					case 0, 1:
+						y = mkDec(apd.Infinite, r.coin(50), big.NewInt(0), 0)
+					case 2:
+						y = mkDec(apd.Finite, r.coin(50), big.NewInt(0), r.rangeI(-3, 3))
+					case 3:
+						y = mkDec(apd.Finite, r.coin(50), big.NewInt(1), 0)
+					case 4:
+						y = mkDec(apd.Finite, r.coin(50), big.NewInt(5), -1)
+					default:
+						y = r.genSpecial()
+					}
 				} else {
 					x, y = r.powOperands(&ctx)
 				}
